@@ -9,6 +9,9 @@ from lbry.blob import MAX_BLOB_SIZE
 from lbry.error import InvalidStreamDescriptorError
 from lbry.stream.descriptor import StreamDescriptor, file_reader, sanitize_file_name
 
+from harness import publish_c02
+from harness.publish_c02 import publish      # noqa: F401  (job function)
+
 LEVEL_TEXT = ('Bounded model checking of three mechanisms of the real stream code: (a) the file reader cuts a file of symbolic '
               'size (content an opaque run) into consecutive non-empty chunks of at most 2 MiB - 1 bytes whose concatenation is '
               'the file; (c) the loader of a descriptor blob, fed a symbolic descriptor (blob lengths, numbers, presence of '
@@ -228,6 +231,8 @@ class SymEnv:
 
 
 def sym_setup(vm, job):
+    if job.get('family') == 'publish':
+        return publish_c02.sym_setup(vm, job)
     import asyncio
     import json
     import lbry.stream.descriptor as D
@@ -377,6 +382,8 @@ class _Native:
 
 
 def native_setup(nvm, job):
+    if job.get('family') == 'publish':
+        return publish_c02.Native(nvm)
     return _Native(nvm)
 
 
@@ -395,6 +402,7 @@ def jobs(tier):
     for n in (range(0, 4) if tier == 'quick' else range(0, 6)):
         out.append(dict(name=f'file-name-{n}', family='file-name', fn='file_name', args=(n,), loop_bound=100, max_depth=60, cost=40 ** n,
                         bounds=dict(code_points=n, alphabet='every code point 0..0x10FFFF'), must_reach=('ok',)))
+    out.extend(publish_c02.jobs(tier))
     return out
 
 
@@ -426,4 +434,4 @@ CANARIES = [
          job=dict(family='chunking', fn='chunking', args=(2,), loop_bound=50, max_depth=50)),
     dict(name='blob-numbering-not-checked', target='lbry.stream.descriptor:StreamDescriptor._from_stream_descriptor_blob',
          mutate=_no_numbering_check, job=dict(family='load', fn='load_descriptor', args=(2,), loop_bound=100, max_depth=60)),
-]
+] + publish_c02.CANARIES
